@@ -65,7 +65,9 @@ theorem C15_prepare_total (b : Bytes) :
     (mpContentType b).drop (str "multipart/form-data; boundary=").length = b := by
   refine ⟨mp_boundaryOf b, ?_, ?_, rfl, ?_, ?_⟩
   · intro form
-    exact ⟨_, by simp only [mpBody, List.append_assoc]⟩
+    exact ⟨(form.texts.map (mpText b)).flatten ++
+      (form.files.reverse.map (fun f => mpFileHeader b f ++ f.data)).flatten,
+      by simp only [mpBody, List.append_assoc]⟩
   · simp [mpBody]
   · exact List.isPrefixOf_iff_prefix.mpr ⟨b, rfl⟩
   · simp [mpContentType]
@@ -73,10 +75,10 @@ theorem C15_prepare_total (b : Bytes) :
 /-- non-vacuity: the empty boundary (the shortest close delimiter, 6 bytes) and a 16-byte one -/
 example : mpBoundaryOf (mpDelim [] ++ [45, 45]) = .ok [] := (C15_prepare_total []).1
 example : mpBoundaryOf (str "\r\n--0123456789abcdef--") = .ok (str "0123456789abcdef") := by
-  decide +kernel
+  with_unfolding_all rfl
 example : mpBody (str "XyZ") ⟨[], []⟩ = str "\r\n--XyZ--" := by decide +kernel
 /-- a shorter `end_boundary` would panic: the theorem is about the value `from_fields` stores -/
-example : mpBoundaryOf (str "\r\n--") = .panic := by decide +kernel
+example : mpBoundaryOf (str "\r\n--") = .panic := by with_unfolding_all rfl
 
 /-! ### (c) the copy buffer does not show in the transmitted body -/
 
@@ -103,14 +105,14 @@ theorem C15_writes_indep (n1 n2 : Nat) (b : Bytes) (form : MForm) (h1 : 1 ≤ n1
 
 namespace C15
 def form : MForm :=
-  { texts := [(str "k", str "v\r\n--B0\r\n"), (str "", str "")],
+  { texts := [(str "k", str "v\r\n--B8\r\n"), (str "", str "")],
     files := [{ name := str "f", data := [0, 13, 10, 45, 45, 255], filename := some (str "a;b.bin"), mime := none },
-              { name := str "g", data := str "--B--", filename := none, mime := some (str "text/plain; charset=utf-8") }] }
+              { name := str "g", data := str "--B7--", filename := none, mime := some (str "text/plain; charset=utf-8") }] }
 end C15
 
-example : (mpWrites 1 (str "B") C15.form).flatten = (mpWrites 8192 (str "B") C15.form).flatten :=
+example : (mpWrites 1 (str "B7") C15.form).flatten = (mpWrites 8192 (str "B7") C15.form).flatten :=
   (C15_writes_indep 1 8192 _ _ (by decide) (by decide)).2.2
-example : (mpWrites 7 (str "B") C15.form).length = 46 := by decide +kernel
+example : (mpWrites 7 (str "B7") C15.form).length = 49 := by decide +kernel
 
 /-- through the chunked writer: the independent chunk decoder of Spec/RequestSpec.lean reads back
     exactly the pieces (none of them empty, so none ends the body early), nothing is left over, and
@@ -129,8 +131,8 @@ theorem C15_chunked_wire (n : Nat) (b : Bytes) (form : MForm) (hn : 1 ≤ n) :
   refine ⟨h, ?_⟩
   simp only [h, Option.map_some, (C15_writes_indep n n b form hn hn).1]
 
-example : (decodeChunks (writeBody { kind := .chunked, writes := mpWrites 7 (str "B") C15.form })).map
-    (fun p => (p.1.flatten, p.2)) = some (mpBody (str "B") C15.form, []) :=
+example : (decodeChunks (writeBody { kind := .chunked, writes := mpWrites 7 (str "B7") C15.form })).map
+    (fun p => (p.1.flatten, p.2)) = some (mpBody (str "B7") C15.form, []) :=
   (C15_chunked_wire 7 _ _ (by decide)).2
 
 /-! ### (d) how many boundaries can collide with a given data -/
@@ -140,7 +142,7 @@ theorem C15_collision_position (data B : Bytes) (hB : B.length = 16)
     (h : occursIn (mpDelim B) data = true) :
     ∃ i, i < data.length ∧ B = (data.drop (i + 4)).take 16 := by
   obtain ⟨a, c, rfl⟩ := (mp_occursIn_iff _ _).mp h
-  refine ⟨a.length, by simp [mpDelim]; omega, ?_⟩
+  refine ⟨a.length, by simp [mpDelim], ?_⟩
   have : (a ++ mpDelim B ++ c).drop (a.length + 4) = B ++ c := by
     rw [List.append_assoc, List.drop_append]
     simp [mpDelim]
